@@ -87,23 +87,28 @@ def allocN (used : List Nat) : Nat → List Nat
 `runFds T evs`: interpret the descriptor-class events of a path against the table `T` of open descriptor numbers, every
 acquisition taking the lowest free number. -/
 
+/-- one descriptor acquisition: resource `r` gets the lowest free number -/
+def acqFd (st : List Nat × List (Nat × Nat)) (r : Nat) : Option (List Nat × List (Nat × Nat)) :=
+  if st.2.any (·.1 == r) then none else
+  let fd := lowestFree st.1
+  some (fd :: st.1, (r, fd) :: st.2)
+
+open Sonic.Model.ResPath in
+def acqAll (st : List Nat × List (Nat × Nat)) : List (Nat × Cls) → Option (List Nat × List (Nat × Nat))
+  | [] => some st
+  | (r, .fd) :: rest => match acqFd st r with
+    | some st' => acqAll st' rest
+    | none => none
+  | _ :: rest => acqAll st rest
+
 open Sonic.Model.ResPath in
 def stepFd (st : List Nat × List (Nat × Nat)) : Ev → Option (List Nat × List (Nat × Nat))
-  | .acquire r .fd _ =>
-    if st.2.any (·.1 == r) then none else
-    let fd := lowestFree st.1
-    some (fd :: st.1, (r, fd) :: st.2)
-  | .call _ _ rs =>
-    rs.foldl (fun acc x => match acc with
-      | none => none
-      | some (t, b) =>
-        if x.2 != .fd then some (t, b)
-        else if b.any (·.1 == x.1) then none
-        else let fd := lowestFree t; some (fd :: t, (x.1, fd) :: b)) (some st)
+  | .acquire r .fd _ => acqFd st r
+  | .call _ _ rs => acqAll st rs
   | .release r _ =>
     match st.2.find? (·.1 == r) with
-    | some (_, fd) => some (st.1.filter (· != fd), st.2.filter (·.1 != r))
-    | none => some st            -- not a descriptor (a mapping or a file name), or not live: judged by `ResPath.run`
+    | some e => some (st.1.filter (· != e.2), st.2.filter (·.1 != r))
+    | none => some st            -- not a descriptor (a mapping or a file name): judged by `ResPath.run`
   | _ => some st
 
 open Sonic.Model.ResPath in
